@@ -140,3 +140,10 @@ let bfs (type st) (type op) ~(header : string list) ~(init : st)
          | _ -> ())) ops
   done;
   (!nstates, !ntrans, !closed)
+
+(* component registry: every run_<x>.ml registers its entry points at load
+   time; main.ml (linked last) dispatches on argv.(1) *)
+let registry : (string, string array -> unit) Hashtbl.t = Hashtbl.create 16
+let register (name : string) (f : string array -> unit) = Hashtbl.replace registry name f
+let input_of (argv : string array) (i : int) : in_channel =
+  if Array.length argv > i then open_in argv.(i) else stdin
